@@ -5,6 +5,7 @@ with one switch in each thread; (c) caller-supplied dictionaries are not modifie
 deterministic."""
 import copy
 import json
+import os
 import sys
 import threading
 
@@ -185,6 +186,41 @@ def main():
             res["determinism"].append(dict(name=name, same=(bytes(c1.dataout) == bytes(c2.dataout))))
         except Exception as e:  # noqa
             res["mutation"].append(dict(name=name, changed=(seg != before), exn=type(e).__name__, before=str(before)[:200], after=str(seg)[:200]))
+    # building a command again from equal arguments gives equal bytes, whatever was built in between
+    # (all parameter-list commands with rich arguments: TransportID lists, descriptor lists, mode pages)
+    sys.path.insert(0, os.path.dirname(os.path.dirname(os.path.abspath(__file__))))
+    import random
+    import spec_params
+    from params_impl import conv
+    from pyscsi.pyscsi.scsi_enum_command import spc
+    from pyscsi.pyscsi.scsi_cdb_modesense6 import ModeSelect6
+    from pyscsi.pyscsi.scsi_cdb_modesense10 import ModeSelect10
+    from pyscsi.pyscsi.scsi_cdb_persistentreserveout import PersistentReserveOut
+    C = dict(ModeSelect6=(ModeSelect6, spc.MODE_SELECT_6), ModeSelect10=(ModeSelect10, spc.MODE_SELECT_10),
+             PersistentReserveOut=(PersistentReserveOut, spc.PERSISTENT_RESERVE_OUT), ExtendedCopy4=(X4, spc.EXTENDED_COPY),
+             ExtendedCopy5=(X5, spc.EXTENDED_COPY))
+    cases = spec_params.cases(random.Random(inp.get("seed", 0)), inp.get("n_rebuild", 6))
+
+    def mk(c):
+        cls, op = C[c["cls"]]
+        cmd = cls(op, *conv(copy.deepcopy(c["pos"])), **conv(copy.deepcopy(c["kw"])))
+        return bytes(cmd.cdb), bytes(cmd.dataout)
+    first = []
+    for c in cases:
+        try:
+            first.append(mk(c))
+        except Exception as e:  # noqa
+            first.append(type(e).__name__)
+    for i, c in enumerate(cases):
+        try:
+            again = mk(c)
+        except Exception as e:  # noqa
+            again = type(e).__name__
+        if again != first[i]:
+            res["determinism"].append(dict(name="%s (case %d of the parameter-list generator)" % (c["kind"], i), same=False))
+            break
+    else:
+        res["determinism"].append(dict(name="parameter-list commands rebuilt", same=True, n=len(cases)))
     print(json.dumps(res))
 
 
